@@ -169,7 +169,7 @@ PROPS["C11"] = dict(
     level_text="Kernel-checked (Props/C11.lean): an emitted IE carries the URR's counter and the counter then moves by exactly one; within a batch a URR's IEs carry "
                "n..n+k-1 in order; other URRs untouched; re-creation resets to 0; no other method touches the counter; numbering_history — for EVERY history mixing report batches on any carrier with Create/Update/Remove/Query URR and "
                "Create/Update/Remove PDR (any driver answers, any iteration order) in which URR u is neither re-created nor removed, the UR-SEQN values emitted for u over the whole history are n, n+1, n+2, … "
-               "one per report (Lemmas/CoreSeq.lean: no rule operation moves another URR's counter or mark). Tie: S-ctl 'urr' + numbering predicate on the datagrams.",
+               "one per report (Lemmas/CoreSeq.lean: no rule operation moves another URR's counter or mark). Tie: S-ctl 'urr' + numbering predicate on the datagrams. timeout_keeps_numbering — no timer expiry (retry, giving a request up, retention) changes any session: a counter is never rewound because a report may not have been delivered.",
     level_note="Trusted: as C01.",
 )
 PROPS["C12"] = dict(
